@@ -13,4 +13,7 @@ theorem C17_source_layout :
     Gen.layoutIntegrityChecksum = [["key:seed", "wow_exe", "fmod_dll", "ijl15_dll", "dbghelp_dll", "unicows_dll"]] ∧
     Gen.layoutIntegrityFinalise = [["seed", "checksum"]] := by decide
 
+/-- C17: integrity.rs keeps no state between calls -/
+theorem C17_source_no_hidden_state : Gen.integrityModuleHasNoSharedState = true := by decide
+
 end WowSrp
